@@ -5,11 +5,18 @@ from . import text_bounded
 ID = "C19"
 LEVEL = "other"
 MODES = ["gregorian"]
-FUNCS = ["datetimeoper:DateTimeOperator.date_diff", ("data:TimePoint.__sub__", r"^tp:(cal-hms/cal-hms|ord-hm/week-h)$"), ("data:TimePoint._cmp", r"^lt:(cal-hms/cal-hms|ord-hm/week-h)$")]
+FUNCS = ["datetimeoper:DateTimeOperator.date_diff",
+         "datetimeoper:DateTimeOperator.process_time_point_str",
+         "datetimeoper:DateTimeOperator.diff_time_point_strs", ("data:TimePoint.__sub__", r"^tp:(cal-hms/cal-hms|ord-hm/week-h)$"), ("data:TimePoint._cmp", r"^lt:(cal-hms/cal-hms|ord-hm/week-h)$")]
 LEMMAS = CAL_LEMMAS
 CANARIES = ["canary.week52"]
-EXPLANATION = ("PROVED: DateTimeOperator.date_diff returns (d, sign) with len(d) >= 0 and first +- d == second for every pair of points; the comparison and difference operations it uses (shifting is C01/C05). STATIC: every operator call of main() sits under a handler that catches ValueError and exits with the message (with C09: explicit raises are ValueError subclasses). EXHAUSTIVE: calendar selection = option, else environment, else gregorian, whatever mode an earlier operator left. BOUNDED (whole-program I/O through argparse and stdout is outside any contract in reach): main(argv) stdout / exit status against the library calls for date-times in 9 notations x 0..3 offsets x 5 calendar selections, pairs with --as-total, recurrences with --max, --utc/--ref/environment, and malformed arguments in every positional slot (never a traceback).")
-ASSUMPTIONS = ["argparse, stdout, stdin, now, datetime fallbacks are external"]
+EXPLANATION = ("PROVED (composition, building blocks uninterpreted): process_time_point_str = format(print format, else the notation the argument was written in; shift(...shift(parse(s), o1)..., ok)) - every offset applied by its own date_shift, one at a time, in the order given (0..3 offsets, with/without a print format); diff_time_point_strs = diff_format(diff(first shifted, second shifted), sign of the same pair), --as-total taken of that same text (4 offset-count pairs x 3 output options). PROVED: DateTimeOperator.date_diff returns (d, sign) with len(d) >= 0 and first +- d == second for every pair of points; the comparison and difference operations it uses (shifting is C01/C05). STATIC: every operator call of main() sits under a handler that catches ValueError and exits with the message (with C09: explicit raises are ValueError subclasses). EXHAUSTIVE: calendar selection = option, else environment, else gregorian, whatever mode an earlier operator left. BOUNDED (whole-program I/O through argparse and stdout is outside any contract in reach): main(argv) stdout / exit status against the library calls for date-times in 9 notations x 0..3 offsets x 5 calendar selections, pairs with --as-total, recurrences with --max, --utc/--ref/environment, and malformed arguments in every positional slot (never a traceback).")
+ASSUMPTIONS = ["argparse, stdout, stdin, now, datetime fallbacks are external",
+               "composition contracts: date_parse, date_shift, date_format, date_diff, "
+               "date_diff_format, format_duration_str are uninterpreted functions of their "
+               "arguments (what each computes: C01/C04/C05/C07/C08/C17 and the CLI grid); "
+               "argument texts are distinct opaque constants; offset lists of length 0..3 "
+               "(the loop is unrolled over a list of concrete length)"]
 LEVEL_TEXT = "Library operations: proof; CLI plumbing: bounded grid. Hence other."
 LEVEL_NOTE = "see DESIGN.md A.4 (as built) and section 5/C19 (plan)"
 
